@@ -377,8 +377,8 @@ def case_batch(case, wctx):
 
 def run(ctx):
     quick = ctx.tier == "quick"
-    n = 480 if quick else 20000
-    per = 30 if quick else 250
+    n = 480 if quick else 8000
+    per = 30 if quick else 125
     ctx.rule = ("template strings of 1-6 elements from the documented grammar (vp.gen_templates), parsed by an "
                 "independent reference; each is defined with the real shell.define, its fields compared, and run "
                 "1-2 times with generated values with the executed argv captured at environments.base.execute; "
